@@ -27,10 +27,14 @@ MStep == /\ Consume("step")
          /\ cancelled' = (cancelled \/ (Ev.t = "cancel" /\ Ev.from = "c_cancel" /\ Ev.ok))
 \* quiescence (nobody can move): no thread waits for a lock, and unless the store was cancelled
 \* every arrived message of a known device has been delivered - none is left parked or queued -
-\* except a message beyond the ratchet window (C02: counter > window + the device's opened messages),
-\* which is not decryptable yet
+\* except a message that is not decryptable: sealed before the announced counter (never), or beyond the
+\* ratchet window (C02: counter > announced counter + window + the device's opened messages; not yet)
 NOpenObs(d) == Cardinality({m \in seen : Ev.devof[m] = d})
-Beyond(m) == "win" \in DOMAIN Ev /\ Ev.win > 0 /\ Ev.ctrof[m] > Ev.win + NOpenObs(Ev.devof[m])
+\* never decryptable: sealed before the counter at which the sender's chain key was announced (late joiner)
+RegAtObs(d) == IF "regat" \in DOMAIN Ev /\ d \in DOMAIN Ev.regat THEN Ev.regat[d] ELSE 0
+Beyond(m) == LET d == Ev.devof[m] IN
+               \/ Ev.ctrof[m] <= RegAtObs(d)
+               \/ ("win" \in DOMAIN Ev /\ Ev.win > 0 /\ Ev.ctrof[m] > RegAtObs(d) + Ev.win + NOpenObs(d))
 MFinal == /\ Consume("final")
           /\ Ev.atgate = <<>> /\ ~Ev.livelock
           /\ ToSet(Ev.delivered) = seen
